@@ -68,6 +68,12 @@ def check(ctx, rule, fn, handles, what="the file"):
                     ctx.check(rule, fn, not writes_live, f"live-path-opened-for-writing:{h}", f"`{A.unparse(c)[:50]}` only reads {what}",
                               f"{fn.qual} opens `{live}` itself with mode {mode!r} next to the atomic handle: {what} is truncated / modified in place before the replacement "
                               f"is complete, so a crash or a concurrent reader sees an empty or partial file", node=c)
+            # ... and nothing moves the published file away first (a "keep a backup" rename before the replacing close opens a
+            # window, and a failure in between leaves no file at all)
+            for c in A.calls(fn.node, into_nested=True):
+                if (dotted(c.func) or "") in ("os.rename", "os.replace", "shutil.move") and c.args and A.unparse(c.args[0]) == live:
+                    ctx.check(rule, fn, False, f"live-path-renamed-away:{h}", "", f"{fn.qual} renames `{live}` away (`{A.unparse(c)[:60]}`) although the atomic handle's close replaces it in one step: "
+                              f"between the two, and after any failure of the close, {what} does not exist", node=c)
         # failure handling
         cleanup = []
         for x in A.body_walk(fn.node):
